@@ -179,6 +179,9 @@ func ruleGroupDelta(rule string) func(*Ctx) {
 		}
 		// same direction rule in doRound's per-vertex recomputation
 		g := c.fn("(ClipperOffset).doRound")
+		if h := fnWithStoreTo(c, g, "ClipperOffset", "stepSin", 0); h != nil {
+			g = h // the arc-step set-up may have been moved into a helper
+		}
 		bad := ""
 		n := 0
 		for _, b := range g.Blocks {
@@ -195,7 +198,7 @@ func ruleGroupDelta(rule string) func(*Ctx) {
 					n++
 					if !guardedBy(st, true, func(v ssa.Value) bool {
 						bo, ok := v.(*ssa.BinOp)
-						return ok && bo.Op == token.LSS && isFieldLoadOf(bo.X, "ClipperOffset", "groupDelta")
+						return ok && bo.Op == token.LSS && isGroupDelta(c, bo.X)
 					}) {
 						bad = "doRound negates stepSin under a condition that is not groupDelta < 0"
 					}
@@ -234,7 +237,10 @@ func ruleGroupDelta(rule string) func(*Ctx) {
 							rev = s.val.expr
 						}
 					}
-					if et.name != "Polygon" && rev != "false" {
+					if rev == "" && allocatesFresh(ng, "Group") {
+					rev = "false" // never stored: the freshly allocated Group keeps the zero value
+				}
+				if et.name != "Polygon" && rev != "false" {
 						bad = "pathsReversed = " + rev + " for a non-polygon group"
 					}
 					if et.name == "Polygon" {
@@ -275,38 +281,94 @@ func lowestSentinel(f *ssa.Function) string {
 	if len(inner.blocks) > len(outer.blocks) {
 		inner, outer = outer, inner
 	}
-	// the value compared with MaxFloat64 must be an inner-header phi whose entry value is the constant, set inside the outer body
-	for _, b := range inner.ordered() {
-		for _, in := range b.Instrs {
-			cmp, ok := in.(*ssa.BinOp)
-			if !ok || cmp.Op != token.EQL {
-				continue
-			}
-			k, ok := cmp.Y.(*ssa.Const)
-			if !ok || !isFloat(k.Type()) {
-				continue
-			}
-			if kv, _ := constFloat(k); kv < 1e300 {
-				continue
-			}
-			phi, ok := cmp.X.(*ssa.Phi)
-			if !ok {
-				return "the area sentinel is not a loop-carried variable"
-			}
-			if phi.Block() != inner.header {
-				return "the area sentinel is carried by the OUTER loop: it is armed once for all paths, so the area of the first path decides the group's orientation"
-			}
-			for i, e := range phi.Edges {
-				if !inner.blocks[phi.Block().Preds[i]] {
-					if kk, ok := e.(*ssa.Const); !ok || kk.Value.String() != k.Value.String() {
-						return "the area sentinel does not start at MaxFloat64 for every path"
+	// The area is computed at most once per path: some loop-carried variable (a float sentinel, a bool flag) remembers
+	// that it has been. That memo must be re-armed for every path: it is a phi of the INNER header whose value on
+	// entry to the inner loop is a constant. A memo carried by the outer loop keeps the first path's area for all.
+	isArea := func(v ssa.Value) bool {
+		c, ok := v.(*ssa.Call)
+		return ok && c.Common().StaticCallee() != nil && c.Common().StaticCallee().Name() == "Area64"
+	}
+	var memoLike func(v ssa.Value, seen map[ssa.Value]bool) bool
+	memoLike = func(v ssa.Value, seen map[ssa.Value]bool) bool {
+		if seen[v] {
+			return false
+		}
+		seen[v] = true
+		if isArea(v) {
+			return true
+		}
+		if k, ok := v.(*ssa.Const); ok {
+			return k.Value != nil
+		}
+		if ph, ok := v.(*ssa.Phi); ok {
+			for _, e := range ph.Edges {
+				if _, isC := e.(*ssa.Const); !isC && !isArea(e) {
+					if _, isP := e.(*ssa.Phi); !isP {
+						return false
 					}
 				}
 			}
-			return ""
+			some := false
+			for _, e := range ph.Edges {
+				if memoLike(e, seen) {
+					some = true
+				}
+			}
+			return some
+		}
+		return false
+	}
+	found := 0
+	for _, b := range inner.ordered() {
+		ifi, ok := b.Instrs[len(b.Instrs)-1].(*ssa.If)
+		if !ok {
+			continue
+		}
+		var ph *ssa.Phi
+		switch x := ifi.Cond.(type) {
+		case *ssa.Phi:
+			ph = x
+		case *ssa.UnOp:
+			ph, _ = x.X.(*ssa.Phi)
+		case *ssa.BinOp:
+			if _, isC := x.Y.(*ssa.Const); isC {
+				ph, _ = x.X.(*ssa.Phi)
+			} else if _, isC := x.X.(*ssa.Const); isC {
+				ph, _ = x.Y.(*ssa.Phi)
+			}
+		}
+		if ph == nil || !memoLike(ph, map[ssa.Value]bool{}) {
+			continue
+		}
+		// does this test guard the area computation? (the call sits in a block reached only through this If)
+		guards := false
+		for _, bb := range inner.ordered() {
+			for _, in := range bb.Instrs {
+				if v, ok := in.(ssa.Value); ok && isArea(v) && b.Dominates(bb) && bb != b {
+					guards = true
+				}
+			}
+		}
+		if !guards {
+			continue
+		}
+		found++
+		if ph.Block() != inner.header {
+			if outer.blocks[ph.Block()] && !inner.blocks[ph.Block()] {
+				return "the 'area already computed' memo is carried by the OUTER loop: it is armed once for all paths, so the area of the first path decides the group's orientation"
+			}
+			continue
+		}
+		for i, e := range ph.Edges {
+			if !inner.blocks[ph.Block().Preds[i]] {
+				if _, ok := e.(*ssa.Const); !ok {
+					return "the 'area already computed' memo is not re-armed for every path (its value on entry to the per-path loop is " + e.Name() + ", carried over from the previous path): the area of the first path decides the group's orientation"
+				}
+			}
 		}
 	}
-	return "sentinel comparison not found"
+	_ = found // no memo at all: the area is recomputed whenever it is needed, which is fine
+	return ""
 }
 
 // ruleOffsetUnion: C05.union + C05.small.
@@ -314,12 +376,18 @@ func ruleOffsetUnion(rule string) func(*Ctx) {
 	return func(c *Ctx) {
 		f := c.fn("(ClipperOffset).executeInternal")
 		fEntry := f
-		if h := fnWithCallsTo(c, f, "(ClipperOffset).checkPathsReversed", 0); h != nil {
+		// the unexported checkPathsReversed and the exported CheckPathsReversed are the same routine on the reference
+		// tree; either may be the one called
+		cpr := "(ClipperOffset).checkPathsReversed"
+		if fnWithCallsTo(c, f, cpr, 0) == nil && fnWithCallsTo(c, f, "(ClipperOffset).CheckPathsReversed", 0) != nil {
+			cpr = "(ClipperOffset).CheckPathsReversed"
+		}
+		if h := fnWithCallsTo(c, f, cpr, 0); h != nil {
 			f = h // the union step may have been moved into a helper of executeInternal
 		}
 		co := f.Params[0].Name()
 		var from *ssa.BasicBlock
-		for _, ci := range callsTo(c, f, "(ClipperOffset).checkPathsReversed") {
+		for _, ci := range callsTo(c, f, cpr) {
 			from = ci.Block()
 		}
 		if from == nil {
@@ -329,7 +397,7 @@ func ruleOffsetUnion(rule string) func(*Ctx) {
 		clips := c.enumValues("ClipType")
 		for _, pr := range []bool{false, true} {
 			for _, rs := range []bool{false, true} {
-				ex := &explorer{c: c, f: f, atoms: map[string]absVal{"(ClipperOffset).checkPathsReversed(" + co + ")": boolVal(pr), co + ".ReverseSolution": boolVal(rs)}}
+				ex := &explorer{c: c, f: f, atoms: map[string]absVal{cpr + "(" + co + ")": boolVal(pr), co + ".ReverseSolution": boolVal(rs)}}
 				outs := ex.explore(from)
 				bad := ""
 				for _, p := range outs {
@@ -681,64 +749,24 @@ func ruleMinkowski(rule string) func(*Ctx) {
 			}
 			return "?"
 		}
-		var ifs *ast.IfStmt
-		ast.Inspect(fd.Body, func(n ast.Node) bool {
-			if i, ok := n.(*ast.IfStmt); ok && ifs == nil {
-				if id, ok := i.Cond.(*ast.Ident); ok && paramIdx(c.info.Uses[id]) == 2 {
-					ifs = i
-				}
-			}
-			return true
-		})
-		bad := ""
-		if ifs == nil || ifs.Else == nil {
-			bad = "no `if isSum {...} else {...}` found"
-		} else {
-			lit := func(n ast.Node) string { // canonical rendering "X: path+pattern, Y: path+pattern"
-				r := ""
-				ast.Inspect(n, func(m ast.Node) bool {
-					cl, ok := m.(*ast.CompositeLit)
-					if !ok || render(cl.Type) != "Point64" || len(cl.Elts) != 2 {
-						return true
-					}
-					var parts []string
-					for _, el := range cl.Elts {
-						kv, ok := el.(*ast.KeyValueExpr)
-						if !ok {
-							parts = append(parts, "?")
-							continue
-						}
-						axis := render(kv.Key)
-						v := kv.Value
-						for {
-							p, ok := v.(*ast.ParenExpr)
-							if !ok {
-								break
-							}
-							v = p.X
-						}
-						be, ok := v.(*ast.BinaryExpr)
-						if !ok {
-							parts = append(parts, axis+": "+render(kv.Value))
-							continue
-						}
-						parts = append(parts, axis+": "+role(be.X, axis)+be.Op.String()+role(be.Y, axis))
-					}
-					r = strings.Join(parts, ", ")
-					return true
-				})
-				return r
-			}
-			ls, ld := lit(ifs.Body), lit(ifs.Else)
-			if ls != "X: path+pattern, Y: path+pattern" && ls != "X: pattern+path, Y: pattern+path" {
-				bad = "sum branch builds {" + ls + "}, want path point plus pattern point on both axes"
-			}
-			if ld != "X: path-pattern, Y: path-pattern" {
-				bad = "difference branch builds {" + ld + "}, want path point minus pattern point on both axes"
-			}
-		}
+		_ = role
+		bad := minkSigns(c, f)
 		c.check(bad == "", rule+".sign", rule+".sign:minkowskiInternal:plus-minus", fd.Pos(), "minkowskiInternal", "isSum: path+pattern on both axes; otherwise path-pattern on both axes", bad,
 			"the sum sweeps the pattern, the difference sweeps the reflected pattern; a mixed sign shears the result")
+		// polarity of minkowskiInternal's last parameter: `closed` on the reference tree; a refactoring may turn it
+		// into `open` (step 1 when true). Read from the step selected by it; the entry points and the first
+		// predecessor index are judged against that reading.
+		openPolarity := false
+		for _, b := range f.Blocks {
+			for _, in := range b.Instrs {
+				if phi, ok := in.(*ssa.Phi); ok {
+					tv, fv, cond := phiByCond(phi)
+					if cond != nil && cond == ssa.Value(param(f, "isClosed", 3)) && isConstInt(tv, 1) && isConstInt(fv, 0) {
+						openPolarity = true
+					}
+				}
+			}
+		}
 		// exported entry points: flags and final union
 		fills := c.enumValues("FillRule")
 		for _, e := range []struct {
@@ -770,8 +798,8 @@ func ruleMinkowski(rule string) func(*Ctx) {
 				seen = true
 				if mi.args[2].abs.k != aBool || mi.args[2].abs.b != e.sum {
 					bad = fmt.Sprintf("passes isSum=%s", mi.args[2].expr)
-				} else if mi.args[3].expr != "isClosed" {
-					bad = "does not pass the caller's isClosed flag"
+				} else if got := strings.NewReplacer("(", "", ")", "").Replace(mi.args[3].expr); got != map[bool]string{false: "isClosed", true: "!isClosed"}[openPolarity] {
+					bad = "does not pass the caller's isClosed flag" + map[bool]string{false: "", true: " negated (the last parameter of minkowskiInternal now means 'open')"}[openPolarity] + ": " + mi.args[3].expr
 				} else if strings.HasSuffix(e.fn, "64") && (mi.args[0].expr != "pattern" || mi.args[1].expr != "path") {
 					bad = fmt.Sprintf("sweeps (%s, %s) instead of the caller's (pattern, path): the inputs are pre-processed", mi.args[0].expr, mi.args[1].expr)
 				} else if strings.HasSuffix(e.fn, "D") && (!strings.HasPrefix(mi.args[0].expr, "ScalePathDToPath64(pattern,") || !strings.HasPrefix(mi.args[1].expr, "ScalePathDToPath64(path,")) {
@@ -789,37 +817,47 @@ func ruleMinkowski(rule string) func(*Ctx) {
 				fmt.Sprintf("UnionPaths64(minkowskiInternal(pattern, path, %v, isClosed), NonZero)", e.sum), bad,
 				"the quads overlap and have been normalised to positive orientation: only a NonZero union gives their covered region")
 		}
-		// norm: every quad appended to the result is positive or the reverse of a non-positive one
-		as := appendStoresLocal(f, "result")
+		// norm: every quad appended to the result is positive or the reverse of a non-positive one (the quad loop may
+		// have been moved into a helper, and the two appends merged into one append of a value chosen by the test)
 		n := 0
-		for i, a := range as {
-			if len(a.elems) != 1 {
-				continue
-			}
-			n++
-			bad := ""
-			el := a.elems[0]
-			for {
-				if ct, ok := el.(*ssa.ChangeType); ok {
-					el = ct.X
+		for _, h := range freshRegion(c, f) {
+			for i, a := range allAppendStores(h) {
+				if len(a.elems) != 1 {
 					continue
 				}
-				break
-			}
-			if strings.HasPrefix(staticName(c, el), "ReversePath") {
-				if !guardedBy(a.store, false, func(v ssa.Value) bool { return isCallNamed(c, v, "IsPositive64") }) {
-					bad = "a reversed quad is appended without the quad having failed IsPositive64"
+				leaves := quadLeaves(c, a.elems[0], a.store.Block())
+				isQuad := false
+				for _, lf := range leaves {
+					if lf.reversed || lf.lit4 {
+						isQuad = true
+					}
 				}
-			} else {
-				if !guardedBy(a.store, true, func(v ssa.Value) bool { return isCallNamed(c, v, "IsPositive64") }) {
-					bad = "a quad is appended without passing IsPositive64"
+				if !isQuad {
+					continue // the per-vertex copies of the pattern, not quads
 				}
+				n++
+				bad := ""
+				isPos := func(v ssa.Value) bool { return isCallNamed(c, v, "IsPositive64") }
+				for _, lf := range leaves {
+					want := !lf.reversed // a reversed quad needs IsPositive64 == false, a plain one == true
+					ok := guardedBy(a.store, want, isPos)
+					if !ok && lf.from != nil {
+						ok = edgeDecidedBy(lf.from, lf.to, want, isPos)
+					}
+					if !ok {
+						if lf.reversed {
+							bad = "a reversed quad is appended without the quad having failed IsPositive64"
+						} else {
+							bad = "a quad is appended without passing IsPositive64"
+						}
+					}
+				}
+				c.check(bad == "", rule+".norm", fmt.Sprintf("%s.norm:%s:append#%d", rule, c.fname(h), i+1), a.store.Pos(), c.fname(h),
+					"quad appended only in positive orientation (as is, or reversed when IsPositive64 fails)", bad,
+					"under the NonZero union a negatively oriented quad cancels a positive neighbour and leaves a hole in the swept region")
 			}
-			c.check(bad == "", rule+".norm", fmt.Sprintf("%s.norm:minkowskiInternal:append#%d", rule, i+1), a.store.Pos(), "minkowskiInternal",
-				"quad appended only in positive orientation (as is, or reversed when IsPositive64 fails)", bad,
-				"under the NonZero union a negatively oriented quad cancels a positive neighbour and leaves a hole in the swept region")
 		}
-		c.floor(rule+".norm", n, 2)
+		c.floor(rule+".norm", n, 1)
 		// closed: delta and the starting predecessor index
 		bad = ""
 		nDelta, nG := 0, 0
@@ -834,6 +872,9 @@ func ruleMinkowski(rule string) func(*Ctx) {
 				tv, fv, cond := phiByCond(phi)
 				if cond == nil || cond != ssa.Value(param(f, "isClosed", 3)) {
 					continue
+				}
+				if openPolarity {
+					tv, fv = fv, tv // the parameter means 'open': its false arm is the closed case
 				}
 				_, tc := tv.(*ssa.Const)
 				_, fc := fv.(*ssa.Const)
@@ -883,7 +924,12 @@ func ruleMinkowski(rule string) func(*Ctx) {
 		c.check(bad == "", rule+".closed", rule+".closed:minkowskiInternal:wrap", f.Pos(), "minkowskiInternal", "closed: (delta, g0) = (0, pathLen-1); open: (1, 0)", bad,
 			"a closed path has a segment from its last to its first vertex that must be swept too; an open path must not get one")
 		// all vertices: no iteration of the outer loops skips its work
-		bad = allIterationsWork(c, f)
+		bad = ""
+		for _, h := range freshRegion(c, f) {
+			if b := allIterationsWork(c, h); b != "" {
+				bad = b
+			}
+		}
 		c.check(bad == "", rule+".all", rule+".all:minkowskiInternal:no-skip", f.Pos(), "minkowskiInternal", "every path vertex gets its translated pattern and every path segment its quads (no iteration is skipped)", bad,
 			"skipping a vertex (e.g. as 'collinear') leaves a part of the path unswept")
 	}
@@ -986,8 +1032,8 @@ func allIterationsWork(c *Ctx, f *ssa.Function) string {
 		work := false
 		for _, b := range l.ordered() {
 			for _, in := range b.Instrs {
-				if call, ok := in.(*ssa.Call); ok {
-					if bi, ok := call.Call.Value.(*ssa.Builtin); ok && bi.Name() == "append" {
+				if isWorkInstr(c, in) {
+					{
 						// this append must be reached each iteration unless it sits in an if/else pair both appending
 						dom := true
 						for _, lt := range latches {
@@ -1032,8 +1078,13 @@ func allIterationsWork(c *Ctx, f *ssa.Function) string {
 				n++
 				has := false
 				for _, cl := range p.calls {
-					if cl.callee == "builtin.append" {
+					if cl.callee == "builtin.append" || (cl.instr != nil && isWorkInstr(c, cl.instr)) {
 						has = true
+					}
+				}
+				for _, sr := range p.stores {
+					if strings.Contains(sr.addr, "[") {
+						has = true // an element of the output is written
 					}
 				}
 				if !has {
@@ -1160,7 +1211,7 @@ func ruleOpenSkipped(rule string) func(*Ctx) {
 					"an open (subject) edge met by the scan changes neither winding count nor parity counters", bad,
 					"open paths have no interior: counting them makes the region test of every edge to their right wrong (Union/EvenOdd of two side-by-side open lines)")
 			}
-			c.floor(rule, n, 2)
+			c.floor(rule, n, 1) // the EvenOdd and winding scans may be merged into one
 		}
 	}
 }
@@ -1728,4 +1779,337 @@ func roleArg(cl callRec, role string, pos int) symVal {
 		return cl.args[k]
 	}
 	return symVal{}
+}
+
+// allocatesFresh: f allocates a new value of the named struct type (so fields it never stores hold the zero value).
+func allocatesFresh(f *ssa.Function, typ string) bool {
+	for _, b := range f.Blocks {
+		for _, in := range b.Instrs {
+			if a, ok := in.(*ssa.Alloc); ok && typeName(a.Type()) == "*"+typ {
+				return true
+			}
+		}
+	}
+	return false
+}
+
+// fnWithStoreTo: root itself when it stores the field, otherwise the fresh helper (up to two levels) that does.
+func fnWithStoreTo(c *Ctx, root *ssa.Function, typ, field string, depth int) *ssa.Function {
+	if len(fieldStoresIn(c, root, typ)[field]) > 0 {
+		return root
+	}
+	if depth >= 2 {
+		return nil
+	}
+	for _, ci := range calls(root) {
+		g := ci.Common().StaticCallee()
+		if g == nil || g == root || g.Blocks == nil || !c.freshFunc(g) {
+			continue
+		}
+		if h := fnWithStoreTo(c, g, typ, field, depth+1); h != nil {
+			return h
+		}
+	}
+	return nil
+}
+
+// isWorkInstr: the instruction produces output in a loop iteration: an append, a store into a slice element, or a
+// call to a function the reference record does not know (the loop body moved into a helper).
+func isWorkInstr(c *Ctx, in ssa.Instruction) bool {
+	switch x := in.(type) {
+	case *ssa.Call:
+		if bi, ok := x.Call.Value.(*ssa.Builtin); ok {
+			return bi.Name() == "append"
+		}
+		if g := x.Call.StaticCallee(); g != nil && c.freshFunc(g) {
+			return true
+		}
+	case *ssa.Store:
+		if ia, ok := x.Addr.(*ssa.IndexAddr); ok {
+			if _, isSlice := ia.X.Type().Underlying().(*types.Slice); isSlice {
+				return true
+			}
+		}
+	}
+	return false
+}
+
+// freshRegion: f plus the functions the reference record does not know that f calls (two levels): the code of f
+// after parts of it were moved into helpers.
+func freshRegion(c *Ctx, f *ssa.Function) []*ssa.Function {
+	out := []*ssa.Function{f}
+	seen := map[*ssa.Function]bool{f: true}
+	for d, frontier := 0, []*ssa.Function{f}; d < 2 && len(frontier) > 0; d++ {
+		var next []*ssa.Function
+		for _, h := range frontier {
+			for _, ci := range calls(h) {
+				if g := ci.Common().StaticCallee(); g != nil && !seen[g] && c.freshFunc(g) {
+					seen[g] = true
+					out = append(out, g)
+					next = append(next, g)
+				}
+			}
+		}
+		frontier = next
+	}
+	return out
+}
+
+// allAppendStores: every `append(x, e...)` of f with the store that writes the appended element as its anchor.
+func allAppendStores(f *ssa.Function) []appendStore {
+	var out []appendStore
+	for _, b := range f.Blocks {
+		for _, in := range b.Instrs {
+			call, ok := in.(*ssa.Call)
+			if !ok {
+				continue
+			}
+			if bi, ok := call.Call.Value.(*ssa.Builtin); !ok || bi.Name() != "append" {
+				continue
+			}
+			if st := anchorStore(call); st != nil {
+				out = append(out, appendStore{store: st, elems: appendedValues(call.Call.Args[1])})
+			}
+		}
+	}
+	sort.Slice(out, func(i, j int) bool { return out[i].store.Pos() < out[j].store.Pos() })
+	return out
+}
+
+// quadLeaf: one possible value of an appended quad: the four-point literal itself (lit4), ReversePath of something
+// (reversed), or something else; from -> to is the control-flow edge that selects it when the value is a phi.
+type quadLeaf struct {
+	reversed, lit4 bool
+	from, to       *ssa.BasicBlock
+}
+
+func quadLeaves(c *Ctx, v ssa.Value, at *ssa.BasicBlock) []quadLeaf {
+	for {
+		if ct, ok := v.(*ssa.ChangeType); ok {
+			v = ct.X
+			continue
+		}
+		break
+	}
+	if ph, ok := v.(*ssa.Phi); ok {
+		var out []quadLeaf
+		for i, e := range ph.Edges {
+			for _, lf := range quadLeaves(c, e, ph.Block().Preds[i]) {
+				if lf.from == nil {
+					lf.from, lf.to = ph.Block().Preds[i], ph.Block()
+				}
+				out = append(out, lf)
+			}
+		}
+		return out
+	}
+	lf := quadLeaf{}
+	if strings.HasPrefix(staticName(c, v), "ReversePath") {
+		lf.reversed = true
+	}
+	if sl, ok := v.(*ssa.Slice); ok {
+		if al, ok := sl.X.(*ssa.Alloc); ok {
+			if pt, ok := al.Type().Underlying().(*types.Pointer); ok {
+				if arr, ok := pt.Elem().Underlying().(*types.Array); ok && arr.Len() == 4 {
+					lf.lit4 = true
+				}
+			}
+		}
+	}
+	return []quadLeaf{lf}
+}
+
+// edgeDecidedBy: the control-flow edge from -> to is taken only when a condition satisfying pred has the value
+// want: from ends in such a test (possibly negated) and `to` is the matching successor, or from itself is reached
+// only under it.
+func edgeDecidedBy(from, to *ssa.BasicBlock, want bool, pred func(ssa.Value) bool) bool {
+	if ifi, ok := from.Instrs[len(from.Instrs)-1].(*ssa.If); ok && from.Succs[0] != from.Succs[1] {
+		cond, neg := ifi.Cond, false
+		for {
+			u, ok := cond.(*ssa.UnOp)
+			if !ok || u.Op != token.NOT {
+				break
+			}
+			cond, neg = u.X, !neg
+		}
+		if pred(cond) {
+			taken := from.Succs[0] == to // the edge is the 'true' successor
+			return (taken != neg) == want
+		}
+	}
+	if len(from.Instrs) > 0 {
+		return guardedBy(from.Instrs[len(from.Instrs)-1], want, pred)
+	}
+	return false
+}
+
+// minkSigns: C08.sign on the SSA form, following helpers the reference record does not know. Every Point64 built
+// from a sum or difference of two coordinates is classified: the operation on each axis, which operand comes from
+// the PATH and which from the PATTERN (roots traced to parameters, through helper call sites), and the value of
+// isSum under which it is built. Sum: path+pattern on both axes; difference: path-pattern on both axes.
+func minkSigns(c *Ctx, f *ssa.Function) string {
+	region := freshRegion(c, f)
+	// role of a parameter of a region function: "pattern"/"path"/"isSum" — by name in minkowskiInternal, through
+	// the call sites for helpers
+	var roleOfParam func(p *ssa.Parameter, d int) string
+	var rootRole func(v ssa.Value, d int) string
+	roleOfParam = func(p *ssa.Parameter, d int) string {
+		g := p.Parent()
+		if g == f {
+			for _, r := range []struct {
+				n string
+				i int
+			}{{"pattern", 0}, {"path", 1}, {"isSum", 2}} {
+				if param(f, r.n, r.i) == p {
+					return r.n
+				}
+			}
+			return "?"
+		}
+		if d > 3 {
+			return "?"
+		}
+		idx := -1
+		for i, q := range g.Params {
+			if q == p {
+				idx = i
+			}
+		}
+		role := ""
+		for _, h := range region {
+			for _, ci := range calls(h) {
+				if ci.Common().StaticCallee() != g || idx >= len(ci.Common().Args) {
+					continue
+				}
+				r := rootRole(ci.Common().Args[idx], d+1)
+				if role != "" && role != r {
+					return "?"
+				}
+				role = r
+			}
+		}
+		if role == "" {
+			return "?"
+		}
+		return role
+	}
+	rootRole = func(v ssa.Value, d int) string {
+		for k := 0; k < 12; k++ {
+			switch x := v.(type) {
+			case *ssa.Parameter:
+				return roleOfParam(x, d)
+			case *ssa.UnOp:
+				if x.Op == token.MUL {
+					v = x.X
+					continue
+				}
+				return "?"
+			case *ssa.FieldAddr:
+				v = x.X
+				continue
+			case *ssa.Field:
+				v = x.X
+				continue
+			case *ssa.IndexAddr:
+				v = x.X
+				continue
+			case *ssa.Index:
+				v = x.X
+				continue
+			case *ssa.Slice:
+				v = x.X
+				continue
+			case *ssa.ChangeType:
+				v = x.X
+				continue
+			case *ssa.Alloc:
+				// a local copy (range variable, parameter spilled to the stack): follow the one whole-value store
+				var src ssa.Value
+				cnt := 0
+				for _, r := range *x.Referrers() {
+					if st, ok := r.(*ssa.Store); ok && st.Addr == ssa.Value(x) {
+						src = st.Val
+						cnt++
+					}
+				}
+				if cnt == 1 {
+					v = src
+					continue
+				}
+				return "?"
+			}
+			return "?"
+		}
+		return "?"
+	}
+	type build struct {
+		op    map[string]string // axis -> "path+pattern" ...
+		guard string            // "sum", "diff", ""
+		pos   token.Pos
+	}
+	builds := map[ssa.Value]*build{}
+	var order []ssa.Value
+	for _, h := range region {
+		for _, b := range h.Blocks {
+			for _, in := range b.Instrs {
+				st, ok := in.(*ssa.Store)
+				if !ok {
+					continue
+				}
+				fa, ok := st.Addr.(*ssa.FieldAddr)
+				if !ok || typeName(fa.X.Type()) != "*Point64" {
+					continue
+				}
+				bo, ok := st.Val.(*ssa.BinOp)
+				if !ok || (bo.Op != token.ADD && bo.Op != token.SUB) {
+					continue
+				}
+				axis := fieldName(fa.X.Type(), fa.Field)
+				bd := builds[fa.X]
+				if bd == nil {
+					bd = &build{op: map[string]string{}, pos: st.Pos()}
+					builds[fa.X] = bd
+					order = append(order, fa.X)
+				}
+				bd.op[axis] = rootRole(bo.X, 0) + bo.Op.String() + rootRole(bo.Y, 0)
+				isSumTest := func(v ssa.Value) bool {
+					pr, ok := v.(*ssa.Parameter)
+					return ok && roleOfParam(pr, 0) == "isSum"
+				}
+				switch {
+				case guardedBy(st, true, isSumTest):
+					bd.guard = "sum"
+				case guardedBy(st, false, isSumTest):
+					bd.guard = "diff"
+				}
+			}
+		}
+	}
+	seen := map[string]bool{}
+	for _, k := range order {
+		bd := builds[k]
+		x, y := bd.op["X"], bd.op["Y"]
+		at := c.pos(bd.pos)
+		if !strings.Contains(x, "pattern") && !strings.Contains(y, "pattern") {
+			continue // not a placed pattern point (e.g. a step vector between two path points)
+		}
+		switch bd.guard {
+		case "sum":
+			seen["sum"] = true
+			if (x != "path+pattern" && x != "pattern+path") || (y != "path+pattern" && y != "pattern+path") {
+				return fmt.Sprintf("sum branch builds {X: %s, Y: %s} at %s, want path point plus pattern point on both axes", x, y, at)
+			}
+		case "diff":
+			seen["diff"] = true
+			if x != "path-pattern" || y != "path-pattern" {
+				return fmt.Sprintf("difference branch builds {X: %s, Y: %s} at %s, want path point minus pattern point on both axes", x, y, at)
+			}
+		default:
+			return fmt.Sprintf("a point {X: %s, Y: %s} is built at %s under no test of isSum", x, y, at)
+		}
+	}
+	if !seen["sum"] || !seen["diff"] {
+		return fmt.Sprintf("no point is built from path and pattern under isSum=%v", !seen["sum"])
+	}
+	return ""
 }
